@@ -1343,6 +1343,13 @@ class FnTranslator:
                     a = bound.get(n, defaults.get(n))
                     if a is None:
                         raise Unsupported(node, 'argument %s missing' % n)
+                    if n not in bound and not isinstance(a, ast.Constant):
+                        # a default is evaluated ONCE, at definition time: only immutable constants are the
+                        # same value at every call (sentinel names are read as None by the callee's own spec)
+                        if isinstance(a, ast.Name) and a.id in self.cls.get('sentinels', ()):
+                            a = ast.copy_location(ast.Constant(value=None), a)
+                        else:
+                            raise Unsupported(node, 'default value of %s is not a constant' % n)
                     ExprTr(self, infer_only=True, nn=nn).expr(a, pt)
                     actual.append((a, pt))
             except (Unsupported, _Unknown) as e:
@@ -1422,7 +1429,7 @@ class FnTranslator:
             items = 'PyRt.range %s %s %s' % tuple(es)
             et = INT
         else:
-            items, lt = ex.expr(st.iter)
+            items, lt = ex.consumed(st.iter)
             if lt[0] == 'Dict':
                 items, lt = 'PyRt.Dict.keys %s' % items, ('List', lt[1])
             if lt[0] == 'Set':
@@ -1569,6 +1576,15 @@ class ExprTr:
         self.no_hoist = 0                   # > 0: inside a conditionally evaluated sub-expression
         self.local = {}                     # comprehension / lambda variables -> (term, type)
         self.bound = 0
+        self.consume_node = None            # the expression a consumer (sorted/list/sum/for) is about to exhaust
+
+    def consumed(self, node, expected=None):
+        """translate the argument of something that exhausts an iterable on the spot"""
+        saved, self.consume_node = self.consume_node, node
+        try:
+            return self.expr(node, expected)
+        finally:
+            self.consume_node = saved
 
     # variables -------------------------------------------------------------------------------
     def var(self, name, node):
@@ -1861,7 +1877,7 @@ class ExprTr:
         if len(node.generators) != 1 or node.generators[0].is_async:
             raise Unsupported(node, 'comprehension with several for clauses')
         g = node.generators[0]
-        items, lt = self.expr(g.iter)
+        items, lt = self.consumed(g.iter)
         if lt[0] == 'Dict':
             items, lt = '(PyRt.Dict.keys %s)' % items, ('List', lt[1])
         if lt[0] != 'List':
@@ -1910,6 +1926,9 @@ class ExprTr:
             return 'r0', callee['result']
         if callee['mutates']:
             raise Unsupported(node, 'a state-changing method call inside an expression')
+        if callee['spec']['kind'] == 'generator' and node is not self.consume_node:
+            # a generator object is a one-shot iterator: as a list it may only be consumed on the spot
+            raise Unsupported(node, 'a generator object that is not consumed at once (sorted/list/sum/for)')
         app = self.fn.call_app(callee, self, node)
         if callee['raises']:
             return self.partial(app, node), callee['result']
@@ -1963,7 +1982,7 @@ class ExprTr:
         if isinstance(node.func, ast.Name) and (fn.cls is not None or fn.raises):
             f, a = node.func.id, node.args
             if f == 'sum' and len(a) == 1:
-                e, t = self.expr(a[0])
+                e, t = self.consumed(a[0])
                 if t == ('List', INT):
                     return '(PyRt.sum %s)' % e, INT
                 if t[0] == 'Prod' and all(x == INT for x in t[1]):      # a fixed-length list of ints
@@ -2028,7 +2047,7 @@ class ExprTr:
                     return '(PyRt.ofBool %s)' % e, INT
                 raise Unsupported(node, 'int() of %s' % (t,))
             if f in ('list', 'tuple') and len(a) == 1:
-                e, t = self.expr(a[0], expected if expected and expected[0] == 'List' else None)
+                e, t = self.consumed(a[0], expected if expected and expected[0] == 'List' else None)
                 if t[0] != 'List':
                     raise Unsupported(node, '%s() of a non-list' % f)
                 return e, t
@@ -2039,7 +2058,7 @@ class ExprTr:
     # conditions (Lean Prop, decidable) ------------------------------------------------------------
     def _sorted(self, node, expected):
         """sorted(l[, key=lambda x: <int expr>][, reverse=<bool constant>]) -> PyRt.sorted (stable)"""
-        e, t = self.expr(node.args[0], expected if expected and expected[0] == 'List' else None)
+        e, t = self.consumed(node.args[0], expected if expected and expected[0] == 'List' else None)
         if t[0] != 'List' or not known(t):
             if t[0] == 'List':
                 raise _Unknown()
